@@ -32,10 +32,15 @@ EnvDecls == << [name |-> "x", e |-> EInt(7)], [name |-> "y", e |-> EUn("-", EInt
 Prec(op) == CASE op \in {"and", "or", "in", "not in"} -> 35 [] op \in CmpOps -> 40 [] op \in {"+", "-"} -> 50
               [] op \in {"*", "/", "//", "%"} -> 60 [] op = "**" -> 70
 PrecOf(e) == IF e.k = "bin" THEN Prec(e.op) ELSE IF e.k = "un" THEN (IF e.op = "not" THEN 45 ELSE 65) ELSE 100
-\* child placed on the left / right of a binary operator: parenthesise when grouping would otherwise change
-WrapL(op, e) == IF PrecOf(e) < Prec(op) \/ (PrecOf(e) = Prec(op) /\ op = "**") THEN EPar(e) ELSE e
-WrapR(op, e) == IF PrecOf(e) < Prec(op) \/ (PrecOf(e) = Prec(op) /\ op # "**") THEN EPar(e) ELSE e
-WrapU(op, e) == IF PrecOf(e) < (IF op = "not" THEN 45 ELSE 65) THEN EPar(e) ELSE e
+\* child placed on the left / right of a binary operator: parenthesise when grouping would otherwise change.
+\* The word operators (and / or / in / not in / not) are never mixed without explicit parentheses: their
+\* relative order is not something the generated programs may depend on (DESIGN §6).
+BoolGroup == {"and", "or", "in", "not in"}
+Mixed(op, e) == (e.k = "bin" /\ e.op # op /\ (op \in BoolGroup \/ e.op \in BoolGroup) /\ Prec(e.op) <= Prec(op) + 5 /\ Prec(op) <= 40)
+                \/ (e.k = "un" /\ e.op = "not") \/ (e.k = "un" /\ op = "**")
+WrapL(op, e) == IF Mixed(op, e) \/ PrecOf(e) < Prec(op) \/ (PrecOf(e) = Prec(op) /\ op = "**") THEN EPar(e) ELSE e
+WrapR(op, e) == IF Mixed(op, e) \/ PrecOf(e) < Prec(op) \/ (PrecOf(e) = Prec(op) /\ op # "**") THEN EPar(e) ELSE e
+WrapU(op, e) == IF e.k \in {"bin", "un"} THEN EPar(e) ELSE e
 
 AllOps == ArithOps \cup CmpOps \cup {"and", "or", "in", "not in"}
 NumLeaves  == {EInt(0), EInt(1), EInt(2), EInt(3), EId("x"), EId("y"), EId("z"), EFloat(3, 1), EId("f"), EId("g")}
